@@ -14,7 +14,7 @@ from mzverif.core import Sub, call, require, scribble
 
 ID = "C13"
 LEVEL = "exploration"
-TECHNIQUE = "exhaustive over all graphs <= 3x3 (every cell, every ordered pair, all short candidate paths, every shortest path for the fork rule) + Hypothesis graphs up to 15x15 / 25x25 + grids of 64..127 cells per side + same-flags-other-shape twins; connection arrays in C / Fortran / moved-axis layout; int8 and int64 arguments, results overwritten by the caller; oracle = adjacency/BFS model built directly from the connection bits"
+TECHNIQUE = "exhaustive over all graphs <= 3x3 (every cell, every ordered pair, all short candidate paths, every shortest path for the fork rule) + Hypothesis graphs up to 15x15 / 25x25 + grids of 64..127 cells per side + same-flags-other-shape twins; connection arrays in C / Fortran / moved-axis layout; int8 and int64 arguments, results overwritten by the caller; oracle = adjacency/BFS model built directly from the connection bits; batch edge tests with mixed orientations, stars around a cell and single edges"
 RULE = (
     "case = (connection bits[, sampled cells, candidate paths, solution, numpy seed]); per case every query family is compared with "
     "the model: nodes_connected (all ordered pairs), get_coord_neighbors, coord_degrees, gen_connected_component_from, get_nodes, "
